@@ -548,11 +548,16 @@ pub fn ci_wilson(
 
     let mean = (n_s + z_sq / 2.) / (n + z_sq);
     let span = (z / (n + z_sq)) * ((n_s * n_f / n) + (z_sq / 4.)).sqrt();
+    // the upper root is below 1, but for huge populations it is closer to 1 than the rounding error
+    let high = (mean + span).min(1.);
 
     match confidence {
-        Confidence::TwoSided(_) => Interval::new(mean - span, mean + span).map_err(|e| e.into()),
-        Confidence::UpperOneSided(_) => Interval::new(mean - span, 1.).map_err(|e| e.into()),
-        Confidence::LowerOneSided(_) => Interval::new(0., mean + span).map_err(|e| e.into()),
+        Confidence::TwoSided(_) => Interval::new(mean - span, high).map_err(|e| e.into()),
+        Confidence::UpperOneSided(_) => {
+            // for a level below 1/2, z is negative and mean - span is the upper root
+            Interval::new((mean - span).min(1.), 1.).map_err(|e| e.into())
+        }
+        Confidence::LowerOneSided(_) => Interval::new(0., high).map_err(|e| e.into()),
     }
 }
 
